@@ -162,8 +162,20 @@ pub fn resolve_encoding<'encoding>(
                 }
             }
             
-            report.message(
-                diagn::Message::fuse_topmost(msgs));
+            // Matches can also be left unresolved without
+            // a failed constraint, e.g. by a value that stays
+            // unknown inside an `asm` block's final pass
+            if msgs.is_empty()
+            {
+                report.error_span(
+                    "failed to resolve instruction",
+                    instr_span);
+            }
+            else
+            {
+                report.message(
+                    diagn::Message::fuse_topmost(msgs));
+            }
         }
 
         return Ok(None);
